@@ -3,7 +3,8 @@
 From Coq Require Import Strings.String Strings.Byte.
 From Coq Require Import List Arith NArith ZArith Bool.
 From PV Require Import Base.Bytes Keystore.Locks Keystore.Load.
-From PV Require Generated.GenKeystore.
+From PV Require Generated.GenKeystore Generated.GenSchema.
+From PV Require Import Chain.SchemaProps.
 From PV Require Import Chain.Model Chain.Run Node.Model Node.Proofs Node.Chain.
 Import ListNotations.
 
@@ -63,3 +64,14 @@ Theorem C20_fixed_height_stable : forall o Q A (query : chain -> Q -> A) (n : cn
   nth_error (snd (cexec o Q A query n es)) j = Some (OAnswer (Some a)).
 Proof. exact node_fixed_height_stable. Qed.
 Print Assumptions C20_fixed_height_stable.
+
+(** source tie (T1): every path of KeyStore.Save that touches the mutex takes the write lock *)
+Theorem C20_keystore_save_takes_write_lock : save_paths_write_locked = true.
+Proof. exact keystore_save_takes_write_lock. Qed.
+Print Assumptions C20_keystore_save_takes_write_lock.
+
+(** source tie (T1): no keeper struct has a field that could carry state from one call to the next (a query must be a
+    function of the committed version it reads) *)
+Theorem C20_keepers_hold_no_state : forallb keeper_field_stateless GenSchema.keeper_fields = true.
+Proof. exact keepers_stateless. Qed.
+Print Assumptions C20_keepers_hold_no_state.
